@@ -184,6 +184,53 @@ func ZZ_C10_matchtx() {
 	bf, buf, k := zzFilter(vParam("maxk", 2))
 	ref := &zzRefFilter{bits: vBufClone(buf), k: k, tweak: bf.msgFilterLoad.Tweak, flags: bf.msgFilterLoad.Flags}
 	tx := zzTx(0, vCase("nout", 0, vParam("maxout", 2)), vCase("nin", 0, vParam("maxin", 1)))
+	if !vSymbolic() {
+		// native replay: the model's filter contents do not line up with the real MurmurHash3, so
+		// the same transaction is run against filters that contain exactly one candidate item each
+		// (the txid, each spent outpoint, each pushed datum), implementation vs reference
+		var items [][]byte
+		txid := tx.Hash()
+		items = append(items, txid[:])
+		for _, in := range tx.MsgTx().TxIn {
+			items = append(items, zzOutpointBytes(&in.PreviousOutPoint.Hash, in.PreviousOutPoint.Index))
+			if p, err := txscript.PushedData(in.SignatureScript); err == nil {
+				items = append(items, p...)
+			}
+		}
+		for _, out := range tx.MsgTx().TxOut {
+			if p, err := txscript.PushedData(out.PkScript); err == nil {
+				items = append(items, p...)
+			}
+		}
+		if len(buf) == 0 {
+			return
+		}
+		if k == 0 {
+			k = 1
+			bf.msgFilterLoad.HashFuncs = 1
+			ref.k = 1
+		}
+		for _, it := range items {
+			for i := range buf {
+				buf[i] = 0
+				ref.bits[i] = 0
+			}
+			r0 := &zzRefFilter{bits: ref.bits, k: k, tweak: ref.tweak, flags: ref.flags}
+			r0.insert(it)
+			copy(buf, ref.bits)
+			g := bf.MatchTxAndUpdate(tx)
+			w := zzNativeRelevant(r0, tx)
+			vAssert("match-result", g == w)
+			same := true
+			for i := range buf {
+				if buf[i] != r0.bits[i] {
+					same = false
+				}
+			}
+			vAssert("filter-update", same)
+		}
+		return
+	}
 	got := bf.MatchTxAndUpdate(tx)
 	want := ref.relevantAndUpdate(tx)
 	vAssert("match-result", got == want)
@@ -191,6 +238,52 @@ func ZZ_C10_matchtx() {
 	vAssume(j >= 0 && j < len(buf))
 	vAssert("filter-update", buf[j] == ref.bits[j])
 	vReach("end")
+}
+
+// zzNativeRelevant: the reference with the REAL script parser (native replay only).
+func zzNativeRelevant(f *zzRefFilter, tx *bchutil.Tx) bool {
+	txid := tx.Hash()
+	found := f.contains(txid[:])
+	for i, out := range tx.MsgTx().TxOut {
+		pushes, err := txscript.PushedData(out.PkScript)
+		if err != nil {
+			continue
+		}
+		for _, d := range pushes {
+			if !f.contains(d) {
+				continue
+			}
+			found = true
+			switch f.flags {
+			case wire.BloomUpdateAll:
+				f.insert(zzOutpointBytes(txid, uint32(i)))
+			case wire.BloomUpdateP2PubkeyOnly:
+				c := txscript.GetScriptClass(out.PkScript)
+				if c == txscript.PubKeyTy || c == txscript.MultiSigTy {
+					f.insert(zzOutpointBytes(txid, uint32(i)))
+				}
+			}
+			break
+		}
+	}
+	if found {
+		return true
+	}
+	for _, in := range tx.MsgTx().TxIn {
+		if f.contains(zzOutpointBytes(&in.PreviousOutPoint.Hash, in.PreviousOutPoint.Index)) {
+			return true
+		}
+		pushes, err := txscript.PushedData(in.SignatureScript)
+		if err != nil {
+			continue
+		}
+		for _, d := range pushes {
+			if f.contains(d) {
+				return true
+			}
+		}
+	}
+	return false
 }
 
 // ZZ_C20_locking: every exported method touches the shared message only inside one critical
